@@ -243,7 +243,11 @@ def prove_lemmas(ctx: Ctx, name: str, preamble: str, lemmas: list[Lemma], per_fi
             for start, nm in line_of:
                 if start <= ln:
                     culprit = nm
-            assert culprit is not None
+            if culprit is None:
+                # the error is in the preamble (or before the first lemma): nothing in this shard was checked
+                for lm in sh:
+                    status.setdefault(lm.name, f"coq error before the first lemma: {_flat(err)[-400:]}")
+                return status
             status[culprit] = _flat(err)[-600:]
             skip.add(culprit)
         for lm in sh:
